@@ -3,7 +3,7 @@
 # Confirms in the scratch worktree /tmp/mq-seed-<ID>: patch applies to a clean checkout, the unedited
 # suite passes with it, the demo fails with it and passes without it.
 ID=$1; DEMO=$2; DEST=$3; shift 3
-WT=/tmp/mq-seed-$ID
+WT=${SEED_WT:-/tmp/mq-seed-$ID}
 export CARGO_NET_OFFLINE=true CARGO_TARGET_DIR=$WT/target
 cd $WT || exit 2
 git checkout -q -- . ; git clean -fdq -e SEED -e target
